@@ -6,6 +6,9 @@ use crate::macsuites::*;
 use crate::util::*;
 
 pub fn eval(op: &str) -> String {
+    if op.split_whitespace().nth(1) == Some("nbdev") {
+        return crate::adevgen::eval_nb(op, crate::adevgen::oracle_c06_dev);
+    }
     if op.split_whitespace().nth(1) == Some("adev") {
         return crate::adevgen::eval(op, crate::adevgen::oracle_c06_dev);
     }
@@ -37,6 +40,18 @@ pub fn run(tier: &str, seed: u64, dir: &str) {
             };
             let op = gen_history("C06", &mut rng, region, &o);
             sink.case(&op, &eval(&op), "counter-history", true);
+        }
+    }
+    // device level (non-blocking front-end): an error / unexpected answer at every radio call
+    for region in ["EU868", "US915"] {
+        let mut v = vec![];
+        crate::adevgen::gen_nb_fault_histories("C06", region, &mut rng, &mut v);
+        for (op, class) in v {
+            sink.case(&op, &eval(&op), class, true);
+        }
+        for _ in 0..(if thorough { 1500 } else { 120 }) {
+            let op = crate::adevgen::gen_nb_random_history("C06", region, &mut rng);
+            sink.case(&op, &eval(&op), "nb-random", true);
         }
     }
     // device level (async front-end): a radio fault at every radio call position
